@@ -1,6 +1,6 @@
 /-
   C10 — Structural constructs resolve to the same tree as their expansions.
-  Models: Resvg/Geom/Transform.lean, Resvg/Convert/Structure.lean, Resvg/SvgTree/Build.lean.
+  Models: Resvg/Geom/Transform.lean, Resvg/Convert/Structure.lean, Resvg/Convert/UseSize.lean, Resvg/SvgTree/Build.lean.
 -/
 import Mathlib.Tactic.Linarith
 import Mathlib.Tactic.Ring
@@ -9,6 +9,8 @@ import Resvg.Lemmas.Transform
 import Resvg.Convert.Structure
 import Resvg.SvgTree.Build
 import Resvg.Generated.ConvElems
+import Resvg.Convert.UseSize
+import Resvg.Generated.UseSize
 import Mathlib.Tactic.NormNum
 import Mathlib.Tactic.Tauto
 
@@ -157,5 +159,99 @@ theorem C10_old_nested_svg_twice :
   · decide
   · have : groupApplications ["use", "switch"] ["use", "switch", "svg"] "svg" = 2 := by decide
     rw [this]; norm_num [seenOpacity]
+
+/-! ### the size of a `use` of a symbol is resolved once
+
+`<use width="50%">` of a symbol establishes a viewport of half the width of the viewport the `use` is in —
+the same viewport as the `use` with that width written as a number.  `Generated.symbolSizeResolvedIn` is read
+off the current sources by the translator: the state in which `viewbox_transform` and `get_clip_rect` resolve
+the size (fix 6b5fe27). -/
+
+/-- the clip rectangle, resolved in the state the sources name -/
+def useSymbolClipAs (resolvedIn : String) (w h : Option Length) (vw vh : Rat) (env : LenEnv) : Option (Rat × Rat) :=
+  if resolvedIn = "state" then useSymbolClip id w h vw vh env else useSymbolClipOld id w h vw vh env
+
+/-- a percentage width on the `use` is the width written out -/
+theorem C10_use_percent_width_is_absolute (p : Rat) (h : Option Length) (vw vh : Rat) (env : LenEnv) :
+    useSymbolClip id (some ⟨p, .percent⟩) h vw vh env = useSymbolClip id (some ⟨vw * p / 100, .none⟩) h vw vh env := by
+  simp [useSymbolClip, useNodeSize, convertLength]
+
+/-- a percentage height on the `use` is the height written out -/
+theorem C10_use_percent_height_is_absolute (p : Rat) (w : Option Length) (vw vh : Rat) (env : LenEnv) :
+    useSymbolClip id w (some ⟨p, .percent⟩) vw vh env = useSymbolClip id w (some ⟨vh * p / 100, .none⟩) vw vh env := by
+  simp [useSymbolClip, useNodeSize, convertLength]
+
+/-- **Current sources**: both size computations of the symbol branch resolve the size in the state of the
+    `use` element, so the percentage form and the written-out form give the same clip rectangle. -/
+theorem C10_use_percent_size_once (p : Rat) (h : Option Length) (vw vh : Rat) (env : LenEnv) :
+    ∀ e ∈ Generated.symbolSizeResolvedIn,
+      useSymbolClipAs e.2 (some ⟨p, .percent⟩) h vw vh env =
+      useSymbolClipAs e.2 (some ⟨vw * p / 100, .none⟩) h vw vh env := by
+  intro e he
+  have hs : e.2 = "state" := by
+    simp [Generated.symbolSizeResolvedIn] at he
+    rcases he with rfl | rfl <;> rfl
+  simp only [useSymbolClipAs, hs, if_true]
+  exact C10_use_percent_width_is_absolute p h vw vh env
+
+/-- with both sides given, the clip rectangle is the viewport that percentages inside the symbol refer to -/
+theorem C10_use_clip_is_viewport (w h : Length) (vw vh : Rat) (env : LenEnv) (s : Rat × Rat)
+    (hc : useSymbolClip id (some w) (some h) vw vh env = some s) :
+    useSymbolViewport id (some w) (some h) vw vh env = s := by
+  unfold useSymbolClip useNodeSize at hc
+  unfold useSymbolViewport
+  simp only [Option.getD_some] at hc
+  split_ifs at hc with hv
+  · simp only [Option.some.injEq] at hc
+    simp only [hv, if_true]
+    exact hc
+
+/-- hence a child's percentage is taken of the size the `use` asked for, once -/
+theorem C10_use_child_percent (p q : Rat) (h : Length) (vw vh : Rat) (env : LenEnv) (s : Rat × Rat)
+    (hc : useSymbolClip id (some ⟨p, .percent⟩) (some h) vw vh env = some s) :
+    symbolChildLen id ⟨q, .percent⟩ (useSymbolViewport id (some ⟨p, .percent⟩) (some h) vw vh env).1 env
+      = vw * p / 100 * q / 100 := by
+  rw [C10_use_clip_is_viewport _ _ _ _ _ _ hc]
+  unfold useSymbolClip useNodeSize at hc
+  simp only [Option.getD_some] at hc
+  split_ifs at hc
+  simp only [Option.some.injEq] at hc
+  subst hc
+  simp [symbolChildLen, convertLength]
+
+/-- every size used in the examples below is a finite `f32` -/
+theorem small_le_maxFinite (x : Rat) (hx : x ≤ 16777215) : x ≤ F32.maxFinite := by
+  have h1 : (1 : Rat) ≤ F32.pow2 104 := by
+    unfold F32.pow2
+    rw [if_pos (by decide)]
+    have : 1 ≤ 2 ^ (104 : Int).toNat := Nat.one_le_two_pow
+    exact_mod_cast this
+  unfold F32.maxFinite
+  have : (((2 ^ 24 - 1 : Nat) : Rat)) = 16777215 := by norm_num
+  rw [this]
+  nlinarith
+
+/-- the sources before 6b5fe27 resolved the percentage twice: `width="50%" height="50%"` in a 200 × 200
+    viewport gave a 50 × 50 clip rectangle instead of 100 × 100 -/
+theorem C10_old_use_percent_twice :
+    useSymbolClipAs "use_state" (some ⟨50, .percent⟩) (some ⟨50, .percent⟩) 200 200 ⟨96, 12⟩ = some (50, 50) ∧
+    useSymbolClipAs "state" (some ⟨50, .percent⟩) (some ⟨50, .percent⟩) 200 200 ⟨96, 12⟩ = some (100, 100) := by
+  have h100 : (100 : Rat) ≤ F32.maxFinite := small_le_maxFinite 100 (by norm_num)
+  have h50 : (50 : Rat) ≤ F32.maxFinite := small_le_maxFinite 50 (by norm_num)
+  have e1 : (200 : Rat) * 50 / 100 = 100 := by norm_num
+  have e2 : (100 : Rat) * 50 / 100 = 50 := by norm_num
+  constructor
+  · simp [useSymbolClipAs, useSymbolClipOld, useSymbolViewport, useNodeSize, convertLength, validLen, e1, e2, h100, h50]
+  · simp [useSymbolClipAs, useSymbolClip, useNodeSize, convertLength, validLen, e1, h100]
+
+/-- non-vacuity: the clip rectangle exists for an ordinary `use` -/
+example : useSymbolClip id (some ⟨50, .percent⟩) none 200 100 ⟨96, 12⟩ = some (100, 100) := by
+  have h100 : (100 : Rat) ≤ F32.maxFinite := small_le_maxFinite 100 (by norm_num)
+  have e1 : (200 : Rat) * 50 / 100 = 100 := by norm_num
+  have e2 : (100 : Rat) * 100 / 100 = 100 := by norm_num
+  simp [useSymbolClip, useNodeSize, convertLength, validLen, pct100, e1, e2, h100]
+
+/-- `convert_svg` clears the size override of an enclosing `use` (fix 203fc52, read off the sources) -/
+theorem C10_nested_svg_resets_use_size : Generated.nestedSvgResetsUseSize = true := by decide
 
 end Resvg.Props.C10
